@@ -39,6 +39,9 @@ use thiserror::Error;
 // Container architecture (CASC four-container model)
 pub mod container;
 
+#[cfg(feature = "verif-hooks")]
+pub mod verif_hooks;
+
 // Storage internals
 pub mod storage;
 
